@@ -86,8 +86,15 @@ func genLocation(t *rt.Tape) (*time.Location, string) {
 // genInstant draws an instant between 2017 and 2035, half of the mass within
 // seconds of a week or day boundary of some constellation.
 func genInstant(t *rt.Tape) int64 {
+	// 2017 .. 2035 mostly; one run in four anywhere from 1981 (zone rules, and
+	// Moscow's own offset, were different then; the week arithmetic of the
+	// property text does not depend on the date)
 	lo := time.Date(2017, 1, 1, 0, 0, 0, 0, time.UTC).UnixMilli()
 	weeks := int64(t.S(52 * 19))
+	if t.S(4) == 0 {
+		lo = time.Date(1981, 1, 4, 0, 0, 0, 0, time.UTC).UnixMilli()
+		weeks = int64(t.S(52 * 58))
+	}
 	base := lo + weeks*msWeek
 	switch t.SW(8, 8, 2, 2, 3) {
 	case 4:
@@ -200,6 +207,11 @@ func gnssTime(prop string, anyStart bool) func(*hx.Ctx) *hx.Outcome {
 		}
 		// "grid": a real receiver observes all constellations at the same epochs
 		// on whole seconds, so GPS and Galileo carry identical timestamps
+		// a marathon: hundreds of epochs per constellation, years of simulated time
+		marathon := t.SBool(1, 60)
+		if marathon {
+			o.Probe("marathon-session")
+		}
 		grid := t.SBool(1, 5)
 		if grid {
 			o.Probe("epochs-on-a-common-grid")
@@ -266,11 +278,16 @@ func gnssTime(prop string, anyStart bool) func(*hx.Ctx) *hx.Outcome {
 				}
 				return r.Intn(maxEpochs / 2)
 			})
+			if marathon {
+				n = 150 + t.S(1200)
+			}
 			var seq []epoch
 			cur := u
 			for i := 0; i < n; i++ {
 				if i > 0 {
-					if grid {
+					if marathon {
+						cur += int64(1+t.S(5))*msDay + int64(t.S(3600000))
+					} else if grid {
 						cur += []int64{0, 1000, 30000, 12 * 3600000, msDay, 2 * msDay, 5 * msDay}[t.S(7)]
 					} else {
 						cur += genGap(t)
@@ -339,7 +356,7 @@ func gnssTime(prop string, anyStart bool) func(*hx.Ctx) *hx.Outcome {
 			wire = append(wire, frames[i]...)
 		}
 		o.ScenHash = gnss.Hash(wire) ^ uint64(T)
-		viaStream := t.SW(3, 7) == 1
+		viaStream := t.SW(3, 7) == 1 && !marathon
 		start := time.UnixMilli(T).Add(time.Duration(startNs)).In(loc)
 		if c.Detail {
 			var ep []string
